@@ -14,84 +14,80 @@ import (
 	"golang.org/x/tools/go/ssa"
 )
 
-// countedSet: fn ranges over its (slice) receiver/parameter and increments a counter by one per element under tests that
-// compare the element with constants only. For each value of the finite domain the path through one iteration is
-// followed (the element is touched only through comparisons), giving the exact set of element values that are counted.
-func countedSet(fn *ssa.Function, domain []int64) (map[int64]bool, string) {
-	if fn == nil || fn.Blocks == nil || len(fn.Params) != 1 {
+// countedSet: result `ri` of fn is a counter over the elements of its slice receiver/parameter: for each value of the finite
+// domain the path through one loop iteration is followed (the element is touched only through comparisons with
+// constants) and the net increment of the counter along it is computed, giving the exact set of element values that
+// are counted. A result that is another function's result (on the same slice) is followed.
+func countedSet(fn *ssa.Function, ri int, domain []int64, depth int) (map[int64]bool, string) {
+	if fn == nil || fn.Blocks == nil || len(fn.Params) != 1 || depth > 3 {
 		return nil, "unexpected signature"
 	}
 	src := ssa.Value(fn.Params[0])
-	// the counter increment: phi + 1 flowing back into the phi and returned
-	var inc *ssa.BinOp
+	// the returned value for result ri
+	var rv ssa.Value
 	for _, b := range fn.Blocks {
-		for _, ins := range b.Instrs {
-			bo, ok := ins.(*ssa.BinOp)
-			if !ok || bo.Op != token.ADD || !constIs(bo.Y, 1) {
-				continue
+		if ret, ok := lastInstr(b).(*ssa.Return); ok && ri < len(ret.Results) {
+			if rv != nil && rv != ret.Results[ri] {
+				return nil, "several different values are returned"
 			}
-			phi, isPhi := bo.X.(*ssa.Phi)
-			if !isPhi || !types.Identical(bo.Type(), fn.Signature.Results().At(0).Type()) {
-				continue
-			}
-			// not the loop index
-			isIdx := false
-			for _, ref := range *bo.Referrers() {
-				if ia, ok := ref.(*ssa.IndexAddr); ok && ia.Index == ssa.Value(bo) {
-					isIdx = true
-				}
-			}
-			for _, ref := range *phi.Referrers() {
-				if ia, ok := ref.(*ssa.IndexAddr); ok && ia.Index == ssa.Value(phi) {
-					isIdx = true
-				}
-			}
-			if isIdx {
-				continue
-			}
-			if inc != nil {
-				return nil, "more than one counter increment"
-			}
-			inc = bo
+			rv = ret.Results[ri]
 		}
 	}
-	if inc == nil {
-		return nil, "no counter incremented by one per element"
+	if rv == nil {
+		return nil, "no such result"
 	}
-	// the element load: *(&src[i])
-	var elem *ssa.UnOp
-	for _, b := range fn.Blocks {
-		for _, ins := range b.Instrs {
-			ld, ok := ins.(*ssa.UnOp)
-			if !ok || ld.Op != token.MUL {
-				continue
+	// delegation: the result of another counting function applied to the same slice
+	switch x := rv.(type) {
+	case *ssa.Extract:
+		if call, ok := x.Tuple.(*ssa.Call); ok {
+			if sc := call.Call.StaticCallee(); sc != nil && len(call.Call.Args) == 1 && call.Call.Args[0] == src {
+				return countedSet(sc, x.Index, domain, depth+1)
 			}
-			if ia, ok := ld.X.(*ssa.IndexAddr); ok && ia.X == src {
-				if elem != nil {
-					return nil, "the element is loaded more than once"
+		}
+	case *ssa.Call:
+		if sc := x.Call.StaticCallee(); sc != nil && len(x.Call.Args) == 1 && x.Call.Args[0] == src {
+			return countedSet(sc, 0, domain, depth+1)
+		}
+	}
+	counter, ok := rv.(*ssa.Phi)
+	if !ok {
+		return nil, "the result is not a loop-carried counter"
+	}
+	header := counter.Block()
+	isElem := func(v ssa.Value) bool {
+		ld, ok := stripConvert(v).(*ssa.UnOp)
+		if !ok || ld.Op != token.MUL {
+			return false
+		}
+		ia, ok := ld.X.(*ssa.IndexAddr)
+		return ok && ia.X == src
+	}
+	// the loop body entry: the successor of the header that is inside the loop
+	var body *ssa.BasicBlock
+	if iff, ok := lastInstr(header).(*ssa.If); ok {
+		_ = iff
+		for _, sblk := range header.Succs {
+			for _, x := range reachableBlocks(sblk) {
+				if x == header {
+					body = sblk
 				}
-				elem = ld
 			}
 		}
 	}
-	if elem == nil {
-		return nil, "no element of the argument is loaded"
+	if body == nil {
+		return nil, "the counter is not carried by a loop over the elements"
 	}
-	isElem := func(v ssa.Value) bool { return stripConvert(v) == ssa.Value(elem) }
 	out := map[int64]bool{}
 	for _, v := range domain {
-		b := elem.Block()
-		seen := map[*ssa.BasicBlock]bool{}
-		reached := false
+		b := body
+		var path []*ssa.BasicBlock
+		okPath := false
 		for steps := 0; steps < 64; steps++ {
-			if b == inc.Block() {
-				reached = true
+			path = append(path, b)
+			if b == header {
+				okPath = true
 				break
 			}
-			if seen[b] || containsPhiOf(b, inc) {
-				break // back at the loop header: the iteration is over without counting
-			}
-			seen[b] = true
 			switch t := lastInstr(b).(type) {
 			case *ssa.Jump:
 				b = b.Succs[0]
@@ -140,35 +136,67 @@ func countedSet(fn *ssa.Function, domain []int64) (map[int64]bool, string) {
 					b = b.Succs[1]
 				}
 			default:
-				steps = 64
+				return nil, "the loop body leaves the loop"
 			}
 		}
-		if reached {
+		if !okPath {
+			return nil, "the loop body does not return to the loop test"
+		}
+		// the value the counter receives at the end of this path
+		predOf := func(blk *ssa.BasicBlock) *ssa.BasicBlock {
+			for i := len(path) - 1; i > 0; i-- {
+				if path[i] == blk {
+					return path[i-1]
+				}
+			}
+			return nil
+		}
+		var delta func(x ssa.Value, at *ssa.BasicBlock, d int) (int, bool)
+		delta = func(x ssa.Value, at *ssa.BasicBlock, d int) (int, bool) {
+			if d > 12 {
+				return 0, false
+			}
+			if x == ssa.Value(counter) {
+				return 0, true
+			}
+			switch y := x.(type) {
+			case *ssa.BinOp:
+				if y.Op == token.ADD && constIs(y.Y, 1) {
+					n, ok := delta(y.X, at, d+1)
+					return n + 1, ok
+				}
+			case *ssa.Phi:
+				p := predOf(y.Block())
+				if y.Block() == header {
+					return 0, false
+				}
+				for i, pb := range y.Block().Preds {
+					if pb == p {
+						return delta(y.Edges[i], at, d+1)
+					}
+				}
+			}
+			return 0, false
+		}
+		last := path[len(path)-2]
+		var incoming ssa.Value
+		for i, pb := range header.Preds {
+			if pb == last {
+				incoming = counter.Edges[i]
+			}
+		}
+		if incoming == nil {
+			return nil, "the counter's value after an iteration was not found"
+		}
+		n, okD := delta(incoming, header, 0)
+		if !okD || n > 1 {
+			return nil, "the counter is not advanced by at most one per element"
+		}
+		if n == 1 {
 			out[v] = true
 		}
 	}
-	// the function returns the counter
-	retOK := false
-	for _, b := range fn.Blocks {
-		if ret, ok := lastInstr(b).(*ssa.Return); ok && len(ret.Results) == 1 {
-			if ret.Results[0] == inc.X {
-				retOK = true
-			}
-		}
-	}
-	if !retOK {
-		return nil, "the counter is not what the function returns"
-	}
 	return out, ""
-}
-
-func containsPhiOf(b *ssa.BasicBlock, inc *ssa.BinOp) bool {
-	for _, ins := range b.Instrs {
-		if ins == ssa.Instruction(inc.X.(*ssa.Phi)) {
-			return true
-		}
-	}
-	return false
 }
 
 // repetitionKinds: index -> name of the schema.FieldRepetitionType constant that fieldFuncs[index] declares.
@@ -335,7 +363,7 @@ func laMaxLevels(c *Ctx, rule string) {
 			r.undecided(rule, key, "", "function not found")
 			continue
 		}
-		got, why := countedSet(fn, domain)
+		got, why := countedSet(fn, 0, domain, 0)
 		switch {
 		case got == nil:
 			r.undecided(rule, key, u.Pos(fn.Pos()), why)
@@ -358,16 +386,28 @@ func laMaxLevels(c *Ctx, rule string) {
 		r.undecided(rule, key, u.Pos(ctor.Pos()), "MaxLevel.Def/Rep or OptionalField.repeated not found")
 		return
 	}
-	maxDef, maxRep := u.Func(rtPath, "RepetitionTypes.MaxDef"), u.Func(rtPath, "RepetitionTypes.MaxRep")
-	calleeOf := func(v ssa.Value) (*ssa.Function, ssa.Value) {
+	// what a value counts: it is result i of a counting function applied to the column's repetition types
+	countsOf := func(v ssa.Value) (string, ssa.Value) {
 		v = stripConvert(v)
-		if call, ok := v.(*ssa.Call); ok {
-			if sc := call.Call.StaticCallee(); sc != nil && len(call.Call.Args) > 0 {
-				return sc, call.Call.Args[0]
-			}
+		ri := 0
+		if ex, ok := v.(*ssa.Extract); ok {
+			v, ri = ex.Tuple, ex.Index
 		}
-		return nil, nil
+		call, ok := v.(*ssa.Call)
+		if !ok {
+			return "", nil
+		}
+		sc := call.Call.StaticCallee()
+		if sc == nil || len(call.Call.Args) == 0 {
+			return "", nil
+		}
+		got, _ := countedSet(sc, ri, domain, 0)
+		if got == nil {
+			return "", nil
+		}
+		return setString(got, kinds), call.Call.Args[0]
 	}
+	wantDefS, wantRepS := setString(wantDef, kinds), setString(wantRep, kinds)
 	// the argument of MaxDef/MaxRep is the elementwise conversion of the constructor's own `types` parameter
 	fromTypes := func(v ssa.Value) bool {
 		s := symExpr(v, 0)
@@ -384,20 +424,20 @@ func laMaxLevels(c *Ctx, rule string) {
 			f := fieldOf(st.Addr)
 			switch f {
 			case defF, repF:
-				want := maxDef
+				want, what := wantDefS, "optional or repeated"
 				if f == repF {
-					want = maxRep
+					want, what = wantRepS, "repeated"
 				}
 				seen[f] = true
-				if sc, arg := calleeOf(st.Val); sc != want || !fromTypes(arg) {
-					bad = append(bad, fmt.Sprintf("MaxLevels.%s is %s, want %s of the column's repetition types", f.Name(), symExpr(st.Val, 0), want.Name()))
+				if got, arg := countsOf(st.Val); got != want || arg == nil || !fromTypes(arg) {
+					bad = append(bad, fmt.Sprintf("MaxLevels.%s is %s (counting %s), want the number of %s elements %s of the column's repetition types", f.Name(), symExpr(st.Val, 0), got, what, want))
 				}
 			case repeatedF:
 				seen[f] = true
 				okRep := false
 				if bo, ok := st.Val.(*ssa.BinOp); ok {
 					for _, pair := range [][2]ssa.Value{{bo.X, bo.Y}, {bo.Y, bo.X}} {
-						if sc, arg := calleeOf(pair[0]); sc == maxRep && fromTypes(arg) {
+						if got, arg := countsOf(pair[0]); got == wantRepS && arg != nil && fromTypes(arg) {
 							// MaxRep > 0, MaxRep != 0, MaxRep >= 1, 0 < MaxRep
 							switch {
 							case pair[0] == bo.X && (bo.Op == token.GTR || bo.Op == token.NEQ) && constIs(pair[1], 0),
@@ -512,7 +552,38 @@ func laTrim(c *Ctx, rule string) {
 // the file) from TotalCompressedSize, Codec from Codec, Offset from FileOffset.
 func laPages(c *Ctx, rule string) {
 	r, u := c.R, c.U
-	want := map[string]string{"N": "NumValues", "Size": "TotalCompressedSize", "Codec": "Codec", "Offset": "FileOffset"}
+	want := map[string]string{"N": "NumValues", "Size": "TotalCompressedSize", "Codec": "Codec"}
+	// Offset carries an obligation only when the reader positions the source with it: then it must be the chunk's
+	// data_page_offset (the first data page of a chunk without dictionary) — file_offset is deprecated, and 0 or past the
+	// pages in files of other writers
+	offsetUsed := ""
+	{
+		roots := sourceRoots(c)
+		for f := range u.reach(append([]*ssa.Function{}, roots.reader...)) {
+			if !u.InUniverse(f) || f.Synthetic != "" {
+				continue
+			}
+			for _, b := range f.Blocks {
+				for _, ins := range b.Instrs {
+					var fv *types.Var
+					switch x := ins.(type) {
+					case *ssa.Field:
+						fv = fieldOf(x)
+					case *ssa.UnOp:
+						if x.Op == token.MUL {
+							fv = fieldOf(x.X)
+						}
+					}
+					if fv != nil && fv.Name() == "Offset" && fv.Pkg() != nil && fv.Pkg().Path() == rtPath {
+						offsetUsed = u.Pos(ins.Pos())
+					}
+				}
+			}
+		}
+	}
+	if offsetUsed != "" {
+		want["Offset"] = "DataPageOffset"
+	}
 	found := 0
 	for _, f := range u.Funcs {
 		if u.pkgPathOf(f) != rtPath || f.Synthetic != "" {
@@ -547,7 +618,7 @@ func laPages(c *Ctx, rule string) {
 				key := fmt.Sprintf("%s Page.%s", u.FnName(f), fld.Name())
 				src := fieldOfLoad(stripConvert(st.Val))
 				if src == nil || src.Name() != w || src.Pkg() == nil || src.Pkg().Path() != schPath {
-					r.bad(rule, key, u.Pos(st.Pos()), fmt.Sprintf("Page.%s is %s, want the chunk's %s from the file's column metadata: the reader's page loops compare it with %s", fld.Name(), symExpr(st.Val, 0), w, map[string]string{"N": "the summed num_values of the pages read", "Size": "the bytes consumed from the file (compressed)", "Codec": "nothing — it selects the decompressor", "Offset": "the file position"}[fld.Name()]))
+					r.bad(rule, key, u.Pos(st.Pos()), fmt.Sprintf("Page.%s is %s, want the chunk's %s from the file's column metadata: the reader's page loops compare it with %s", fld.Name(), symExpr(st.Val, 0), w, map[string]string{"N": "the summed num_values of the pages read", "Size": "the bytes consumed from the file (compressed)", "Codec": "nothing — it selects the decompressor", "Offset": "nothing — the reader seeks to it (at " + offsetUsed + "); file_offset is deprecated and 0, or past the pages, in files of other writers"}[fld.Name()]))
 				} else {
 					r.ok(rule, key, u.Pos(st.Pos()), "from "+w)
 				}
@@ -557,7 +628,7 @@ func laPages(c *Ctx, rule string) {
 	if found == 0 {
 		r.failf("%s: no construction of parquet.Page found", rule)
 	}
-	r.floor(rule+"/page-fields", 3, "N, Size, Codec (Offset) in Metadata.Pages")
+	r.floor(rule+"/page-fields", 3, "N, Size, Codec (and Offset when the reader seeks to it) in Metadata.Pages")
 }
 
 // laReadCounter (C08): a reader wrapper that accounts for consumed bytes advances its counter by the count the inner
